@@ -300,9 +300,12 @@ structure PSOut where
   utf16 : Bool
   deriving Repr, DecidableEq
 
-/-- the marker line was read: strip the end of line before it, drain the rest (`io.Copy(io.Discard, br)`) -/
+/-- the marker line was read (`line == first`): the `eol` bytes in front of it must be the CRLF that ends the marker line
+    itself (`saved[len(saved)-eol:] != first[len(first)-eol:]`, fix F-ps-eol); strip them, drain the rest
+    (`io.Copy(io.Discard, br)`) -/
 def psMarker (u16 : Bool) (eol : Nat) (saved : Bytes) (ts : Nat) (line : Bytes) : Prog PSOut :=
   if saved.length < eol then failE "badsig" else
+  if saved.drop (saved.length - eol) ≠ line.drop (line.length - eol) then failE "badsig" else
   let saved' := saved.take (saved.length - eol)
   .bufDrain schedDiscard fun b en =>
     match en with
